@@ -645,6 +645,13 @@ pub fn sweep_c09(tier: &str, seed: u64) -> (usize, Vec<String>) {
                     let g = s2.matrix()[i][k];
                     if !(g == wants || (g - wants).abs() < 1e-4) { f.push(fail("pwm_to_scoring", format!("background {:?}: score[{}][{}] = {} expected {}", bgv, i, k, g, wants), case.clone())); }
                 } }
+                // rescaling the uniform-background weights to this background gives frequency / new background again (up to rounding),
+                // in every column where both backgrounds are non-zero, and records the new background
+                let resc = wm.rescale(b.clone());
+                if resc.background().frequencies() != &bgv[..] { f.push(fail("pwm_weight_rescale", format!("rescale to {:?} does not record the new background", bgv), case.clone())); }
+                for i in 0..m { for k in 0..4 { if bgv[k] != 0.0 { let want = fm.matrix()[i][k] / bgv[k]; let g = resc.matrix()[i][k]; if !((g - want).abs() <= 1e-4 * (1.0 + want.abs())) { f.push(fail("pwm_weight_rescale", format!("rescale to {:?}: weight[{}][{}] = {} expected {}", bgv, i, k, g, want), case.clone())); } } } }
+                let same = wm.rescale(bg.clone());
+                if same.matrix() != wm.matrix() || same.background().frequencies() != bg.frequencies() { f.push(fail("pwm_weight_rescale", "rescaling to the same background changes the matrix".into(), case.clone())); }
                 if w2.background().frequencies() != &bgv[..] || s2.background().frequencies() != &bgv[..] { f.push(fail("pwm_to_weight", "the matrix does not carry the background it was built with".into(), case.clone())); }
                 // "every window without wildcard scores between the reported minimum and maximum": also windows made of symbols whose background is
                 // zero (their cells are -inf, so the reported minimum must be -inf too)
